@@ -581,12 +581,14 @@ def generate(rng, seed, tier='quick'):
     if routes_before and rng.random() < 0.12:
         # the same prefix declared twice (two modules of one program): the other routes must not suffer
         routes_before.insert(rng.randrange(len(routes_before) + 1), list(rng.choice(routes_before)))
-    if rng.random() < 0.3 and not routes_before:
-        # (a route declared while the start-up registrations are still running is outside the statement)
+    if rng.random() < 0.3:
+        # a route declared on a running application - also while the start-up registrations of the routes declared
+        # before are still on their way (one declaration, one command)
         pfx = ['s', rng.choice(['x', 'y'])]
         if tuple(pfx) not in used:
             used.add(tuple(pfx))
-            ops.append({'at': rng.randint(2000, t + 1000), 'op': 'route', 'prefix': pfx})
+            at = rng.randint(2000, t + 1000) if not routes_before or rng.random() < 0.4 else rng.choice([20, 60, 150, 400, 1200])
+            ops.append({'at': at, 'op': 'route', 'prefix': pfx})
     if cfg.get('open_delay_us') and rng.random() < 0.6:
         # a route declared while the connection is still being opened: it is a declared route of this connection
         pfx = ['o', rng.choice(['x', 'y'])]
